@@ -196,6 +196,65 @@ def chain_mask(rng, k, length=None):
     return mask
 
 
+def core_with_tails(rng, k):
+    """vertex mask: a closed branching core (all k-mers over 2 or 3 letters) with forward trees of one common depth hanging off
+    it (each exit vertex appends a letter outside the core alphabet; the trees branch 1- or 2-fold and end in dead ends): under
+    threshold 1 whole layers of the trees die in the same sweep, several successors of one core vertex at once."""
+    d = rng.choice([2, 2, 3])
+    letters = rng.sample(range(4), d)
+    outside = [c for c in range(4) if c not in letters]
+    n = 4 ** k
+    mask = [1 if all(((v // 4 ** i) % 4) in letters for i in range(k)) else 0 for v in range(n)]
+    depth = rng.choice([k - 1, k, k + 1, k + 2])
+    q = rng.choice([0.15, 0.3, 0.6])
+    frontier = []
+    for g in range(n):
+        if mask[g] and rng.random() < q:
+            for c in outside:
+                if rng.random() < 0.75:
+                    frontier.append((4 * g + c) % n)
+    for f in frontier:
+        mask[f] = 1
+    for _ in range(depth):
+        nxt = []
+        for f in frontier:
+            for c in rng.sample(range(4), rng.choice([1, 1, 2])):
+                w = (4 * f + c) % n
+                if not mask[w]:
+                    mask[w] = 1
+                    nxt.append(w)
+        frontier = nxt
+    return mask
+
+
+def funnel_mask(rng, k):
+    """vertex mask: a small live branching core (all k-mers over two letters) and DOOMED sibling chains: from a core vertex g the
+    exit vertices g[1:]+c (two or three letters c outside the core alphabet) are continued by the SAME appended words (a short
+    random word and some of its suffixes, then a non-branching sink cycle of period 1 or 2 repeated): the chains from sibling
+    vertices have equal length and merge after k steps, vertices with two doomed successors arise where two words overlap.
+    Under threshold 1 the funnel dies level by level, sibling vertices losing their last arc in the same sweep."""
+    n = 4 ** k
+    letters = rng.sample(range(4), 2)
+    outside = [c for c in range(4) if c not in letters]
+    mask = [1 if all(((v // 4 ** i) % 4) in letters for i in range(k)) else 0 for v in range(n)]
+
+    def add_string(st):
+        for i in range(len(st) - k + 1):
+            mask[sum(c * 4 ** (k - 1 - j) for j, c in enumerate(st[i:i + k]))] = 1
+    for _ in range(rng.choice([1, 1, 2])):
+        g = [rng.choice(letters) for _ in range(k)]
+        sink = [rng.choice(outside)] if rng.random() < 0.6 else [rng.choice(outside), rng.randrange(4)]
+        word = [rng.randrange(4) for _ in range(rng.randint(0, 3))]
+        words = [word] + [word[i:] for i in range(1, len(word) + 1) if rng.random() < 0.6]
+        exits = rng.sample(outside, 2) + ([rng.choice(letters)] if rng.random() < 0.3 else [])
+        for c in exits:
+            for wd in (words if rng.random() < 0.7 else words[:1]):
+                add_string(g + [c] + wd + sink * (k + 2))
+    for v in rng.sample(range(n), rng.choice([0, 0, 0, 1, 3])):
+        mask[v] = 1
+    return mask
+
+
 def twin_graph(rng, rows, k):
     """a DIFFERENT arc subset with the same first-order statistics (same vertices with arcs, same number of arcs, same multiset
     of successors, same sums): one arc u -> w is moved to another predecessor u' -> w of the same vertex w.  None if impossible."""
